@@ -120,8 +120,16 @@ type blkReader struct {
 }
 
 func (r *blkReader) next() (CarBlock, error) {
+	// only a read that starts at a section boundary may end the archive
+	if _, err := r.br.Peek(1); err != nil {
+		return nil, err
+	}
+
 	cid, bytes, err := util.ReadNode(r.br)
 	if err != nil {
+		if err == io.EOF {
+			err = io.ErrUnexpectedEOF
+		}
 		return nil, err
 	}
 
